@@ -286,6 +286,59 @@ pub struct Sim {
     /// entries of files already read, by setsum (a file's name is the setsum of its contents);
     /// filled by `dump`, read only by `levels_cached`
     pub ent_cache: EntCache,
+    /// every write / refused write / memtable rotation / flush, with the state of the history
+    /// model `Blue.StoreHist` before and after it (taken by `C01`)
+    pub hist: Vec<HistStep>,
+    /// record `hist` (off unless a check asks: nothing changes for the other users of `Sim`)
+    pub record_hist: bool,
+    /// the state the observer saw at `flush.rotated` (between the rotation and the ingest)
+    pub hist_mid: std::rc::Rc<std::cell::RefCell<Option<HistState>>>,
+}
+
+/// what the history model `Blue.StoreHist` steps on: memtable and immutable memtable in cursor
+/// order, `seq_no`, `visible_seq_no` (read off the `kvs.load.ts` event of a point read: the hooks
+/// have no accessor for it) and level 0 in the order the version holds it
+#[derive(Clone, Debug)]
+pub struct HistState {
+    pub mem: Vec<Ent>,
+    pub imm: Option<Vec<Ent>>,
+    pub seq: u64,
+    pub vis: u64,
+    pub l0: Vec<FileDump>,
+}
+
+/// `op`: `write k[!],…` | `reject k[!],…` | `rollover` | `flush`
+#[derive(Clone, Debug)]
+pub struct HistStep {
+    pub op: String,
+    pub before: HistState,
+    pub after: HistState,
+}
+
+/// the timestamp a read is made at (`state.visible_seq_no`), as the event `kvs.load.ts` of one
+/// point read reports it.  Turns the event log on and off again: for checks that do not use it.
+pub fn visible_seq_no(kvs: &KeyValueStore) -> Result<u64, String> {
+    let _ = lsmtk::verif::take_events();
+    lsmtk::verif::events_enable(true);
+    let mut tomb = false;
+    let r = kvs.load(b"", &mut tomb);
+    lsmtk::verif::events_enable(false);
+    let evs = lsmtk::verif::take_events();
+    r.map_err(|e| err_class(&e))?;
+    evs.iter().rev().find(|e| e.2 == "kvs.load.ts").map(|e| e.3[0]).ok_or_else(|| "no-kvs.load.ts-event".to_string())
+}
+
+pub fn hist_state(kvs: &KeyValueStore, root: &str, cache: &EntCache) -> Result<HistState, String> {
+    let (mem, imm) = kvs.verif_dump_mem().map_err(|e| err_class(&e))?;
+    let conv = |v: Vec<sst::KeyValuePair>| -> Vec<Ent> { v.into_iter().map(|e| (e.key, e.timestamp, e.value)).collect() };
+    let seq = kvs.verif_state().0;
+    let vis = visible_seq_no(kvs)?;
+    let l0 = levels_cached(kvs, root, cache)?.into_iter().next().unwrap_or_default();
+    Ok(HistState { mem: conv(mem), imm: imm.map(conv), seq, vis, l0 })
+}
+
+pub fn batch_keys(es: &[(Vec<u8>, Option<Vec<u8>>)]) -> String {
+    es.iter().map(|(k, v)| format!("{}{}", hex(k), if v.is_some() { "" } else { "!" })).collect::<Vec<_>>().join(",")
 }
 
 pub type EntCache = std::rc::Rc<std::cell::RefCell<std::collections::HashMap<[u8; 32], Vec<Ent>>>>;
@@ -345,7 +398,7 @@ fn err_class(e: &lsmtk::SError) -> String {
 /// is the window in which the immutable memtable, and then the immutable memtable *and* its file,
 /// are visible), and a flushed memtable's log is still in the store's root until its SST is in
 /// the manifest.
-fn install_probe(kvs: &KeyValueStore, root: &str, oracle: &BTreeMap<Vec<u8>, Option<Vec<u8>>>, sink: std::rc::Rc<std::cell::RefCell<(u64, Vec<String>)>>) {
+fn install_probe(kvs: &KeyValueStore, root: &str, oracle: &BTreeMap<Vec<u8>, Option<Vec<u8>>>, sink: std::rc::Rc<std::cell::RefCell<(u64, Vec<String>)>>, hist: Option<(std::rc::Rc<std::cell::RefCell<Option<HistState>>>, EntCache)>) {
     let kvs_ptr = kvs as *const KeyValueStore;
     let oracle = oracle.clone();
     let root = root.to_string();
@@ -353,6 +406,9 @@ fn install_probe(kvs: &KeyValueStore, root: &str, oracle: &BTreeMap<Vec<u8>, Opt
     lsmtk::verif::set_probe(Some(Box::new(move |tag: &'static str| {
         // SAFETY: the probe is cleared before `kvs` is dropped (see `with_probe`)
         let kvs = unsafe { &*kvs_ptr };
+        if let (Some((mid, cache)), "flush.rotated") = (&hist, tag) {
+            *mid.borrow_mut() = hist_state(kvs, &root, cache).ok();
+        }
         let mut sink = sink.borrow_mut();
         sink.0 += 1;
         for (k, want) in oracle.iter() {
@@ -399,7 +455,8 @@ fn install_probe(kvs: &KeyValueStore, root: &str, oracle: &BTreeMap<Vec<u8>, Opt
 impl Sim {
     fn with_probe<T>(&mut self, f: impl FnOnce(&Sim) -> T) -> T {
         let sink = std::rc::Rc::new(std::cell::RefCell::new((0u64, Vec::<String>::new())));
-        install_probe(self.kvs(), &self.root, &self.oracle, sink.clone());
+        let hist = if self.record_hist { Some((self.hist_mid.clone(), self.ent_cache.clone())) } else { None };
+        install_probe(self.kvs(), &self.root, &self.oracle, sink.clone(), hist);
         let r = f(self);
         lsmtk::verif::set_probe(None);
         let (n, fails) = std::mem::take(&mut *sink.borrow_mut());
@@ -411,7 +468,7 @@ impl Sim {
     pub fn open(root: &str, cfg: &Cfg) -> Result<Sim, String> {
         let opts = cfg.options(root);
         let kvs = KeyValueStore::open(opts).map_err(|e| err_class(&e))?;
-        Ok(Sim { root: root.to_string(), cfg: cfg.clone(), kvs: Some(kvs), oracle: BTreeMap::new(), flushes: 0, compactions: 0, reopens: 0, stalled_unselectable: 0, verifier_passes: 0, verifier_backoffs: 0, last_verify: String::new(), last_verify_full: String::new(), probe_failures: vec![], probes_run: 0, frag_seen: BTreeMap::new(), sst_events: BTreeMap::new(), edit_ordinal: 0, chosen: vec![], applied: vec![], record_applied: false, ent_cache: Default::default() })
+        Ok(Sim { root: root.to_string(), cfg: cfg.clone(), kvs: Some(kvs), oracle: BTreeMap::new(), flushes: 0, compactions: 0, reopens: 0, stalled_unselectable: 0, verifier_passes: 0, verifier_backoffs: 0, last_verify: String::new(), last_verify_full: String::new(), probe_failures: vec![], probes_run: 0, frag_seen: BTreeMap::new(), sst_events: BTreeMap::new(), edit_ordinal: 0, chosen: vec![], applied: vec![], record_applied: false, ent_cache: Default::default(), hist: vec![], record_hist: false, hist_mid: Default::default() })
     }
 
     pub fn kvs(&self) -> &KeyValueStore {
@@ -439,6 +496,34 @@ impl Sim {
             levels_cached(self.kvs(), &self.root, &self.ent_cache).ok()
         } else {
             None
+        }
+    }
+
+    /// the history-model state now (`None` unless `record_hist`)
+    pub fn hist_before(&self) -> Option<HistState> {
+        if self.record_hist {
+            hist_state(self.kvs(), &self.root, &self.ent_cache).ok()
+        } else {
+            None
+        }
+    }
+
+    /// one completed operation `op` of the history model, from `before` to the state now
+    pub fn record_hist_step(&mut self, op: String, before: Option<HistState>) {
+        if let Some(before) = before {
+            if let Ok(after) = hist_state(self.kvs(), &self.root, &self.ent_cache) {
+                self.hist.push(HistStep { op, before, after });
+            }
+        }
+    }
+
+    /// one pass of the flush loop body = the model's `rollover` (up to the state the observer saw
+    /// at `flush.rotated`) followed by the model's `flush`
+    fn record_hist_flush(&mut self, before: Option<HistState>) {
+        let mid = self.hist_mid.borrow_mut().take();
+        if let (Some(before), Some(mid)) = (before, mid) {
+            self.hist.push(HistStep { op: "rollover".to_string(), before, after: mid.clone() });
+            self.record_hist_step("flush".to_string(), Some(mid));
         }
     }
 
@@ -488,12 +573,14 @@ impl Sim {
         }
         self.kvs().verif_request_flush();
         let before = self.tree_before();
+        let hb = self.hist_before();
         lsmtk::verif::set_single_step(Some(0));
         let r = self.with_probe(|s| s.kvs().memtable_thread());
         lsmtk::verif::set_single_step(None);
         r.map_err(|e| format!("flush-error:{}", err_class(&e)))?;
         self.flushes += 1;
         self.record_ingest(before);
+        self.record_hist_flush(hb);
         Ok(true)
     }
 
@@ -505,12 +592,14 @@ impl Sim {
                 return Ok(());
             }
             let before = self.tree_before();
+            let hb = self.hist_before();
             lsmtk::verif::set_single_step(Some(0));
             let r = self.with_probe(|s| s.kvs().memtable_thread());
             lsmtk::verif::set_single_step(None);
             r.map_err(|e| format!("flush-error:{}", err_class(&e)))?;
             self.flushes += 1;
             self.record_ingest(before);
+            self.record_hist_flush(hb);
         }
         Ok(())
     }
@@ -526,12 +615,16 @@ impl Sim {
     fn apply_inner(&mut self, op: &Op) -> Result<(), String> {
         match op {
             Op::Put(k, v) => {
+                let hb = self.hist_before();
                 self.kvs().put(k, v).map_err(|e| format!("put-error:{}", err_class(&e)))?;
+                self.record_hist_step(format!("write {}", hex(k)), hb);
                 self.oracle.insert(k.clone(), Some(v.clone()));
                 self.background_flush()
             }
             Op::Del(k) => {
+                let hb = self.hist_before();
                 self.kvs().del(k).map_err(|e| format!("del-error:{}", err_class(&e)))?;
+                self.record_hist_step(format!("write {}!", hex(k)), hb);
                 self.oracle.insert(k.clone(), None);
                 self.background_flush()
             }
@@ -543,7 +636,9 @@ impl Sim {
                         None => wb.del(k),
                     }
                 }
+                let hb = self.hist_before();
                 self.kvs().write(wb).map_err(|e| format!("write-error:{}", err_class(&e)))?;
+                self.record_hist_step(format!("write {}", batch_keys(es)), hb);
                 for (k, v) in es {
                     self.oracle.insert(k.clone(), v.clone());
                 }
